@@ -2397,6 +2397,9 @@ class AbstractCoalescent(ABC):
             self.locus_config: LocusConfig = loci
 
             if recombination_rate is not None:
+                if recombination_rate < 0:
+                    raise ValueError("Recombination rate must be non-negative.")
+
                 self.locus_config.recombination_rate = recombination_rate
 
         # population names present in the population configuration but not in the demography
